@@ -25,7 +25,7 @@ from ..tlc import MachineryError, SPECS, require_coverage, run_tlc, write_cfg
 
 FONT = os.path.join(SPECS, "font")
 AGL_DEVS = ["HexPrefixOnly", "ChrRange", "StripBothEnds", "CompFailAll"]
-FONT_DEVS = ["DiffKeepsBase", "HeaderValueError", "Type3SkewWidth", "BuiltinStdIgnored"]
+FONT_DEVS = ["DiffKeepsBase", "HeaderValueError", "Type3SkewWidth", "BuiltinStdIgnored", "BuiltinKeepsEarlier"]
 NC = 8
 FS = 10
 TOL = 1e-9
@@ -150,26 +150,42 @@ def direction_a_agl(ck, jobs, futures):
 _TABLES = None
 
 
-def base_tables():
-    """{'std'|'mac'|'win'|'pdf': {byte: text}} built from latin_enc.ENCODING + glyphlist (data constants of the model);
-    self-check: must be what EncodingDB holds."""
+def base_tables(verify=False):
+    """{'std'|'mac'|'win'|'pdf': {byte: text}} built from latin_enc.ENCODING + glyphlist (data constants of the model).
+    verify (parent process, before any font has been built): must be what EncodingDB holds - a disagreement between the
+    two readings of the data is a machinery failure.  Later disagreements are what tables_intact() reports."""
     global _TABLES
     if _TABLES is None:
-        from pdfminer.encodingdb import EncodingDB
-        from pdfminer.glyphlist import glyphname2unicode
-        from pdfminer.latin_enc import ENCODING
-        t = {"std": {}, "mac": {}, "win": {}, "pdf": {}}
-        for (name, std, mac, win, pdf) in ENCODING:
-            for k, c in (("std", std), ("mac", mac), ("win", win), ("pdf", pdf)):
-                if c:
-                    t[k][c] = glyphname2unicode[name]
-        real = {"std": EncodingDB.std2unicode, "mac": EncodingDB.mac2unicode, "win": EncodingDB.win2unicode,
-                "pdf": EncodingDB.pdf2unicode}
-        for k in t:
-            if t[k] != real[k]:
-                raise MachineryError("base-encoding table %s rebuilt from latin_enc differs from EncodingDB's" % k)
-        _TABLES = t
+        from ..observe.fontrec import pristine_tables
+        p = pristine_tables()
+        _TABLES = {"std": p["StandardEncoding"], "mac": p["MacRomanEncoding"], "win": p["WinAnsiEncoding"],
+                   "pdf": p["PDFDocEncoding"]}
+    if verify:
+        bad = tables_intact()
+        if bad:
+            raise MachineryError("base-encoding table %s rebuilt from latin_enc differs from EncodingDB's" % bad)
     return _TABLES
+
+
+def tables_intact():
+    """-> names of EncodingDB's shared class-level tables that are no longer what latin_enc prescribes (FontSeq.tla
+    SharedUnchanged evaluated on the real process state)"""
+    from pdfminer.encodingdb import EncodingDB
+    t = base_tables()
+    real = {"std": EncodingDB.std2unicode, "mac": EncodingDB.mac2unicode, "win": EncodingDB.win2unicode,
+            "pdf": EncodingDB.pdf2unicode}
+    return [k for k in sorted(t) if t[k] != real[k]]
+
+
+def restore_tables():
+    """after a reported modification: put the shared tables back so that one defect is not reported once per later font"""
+    from pdfminer.encodingdb import EncodingDB
+    t = base_tables()
+    for k, d in (("std", EncodingDB.std2unicode), ("mac", EncodingDB.mac2unicode), ("win", EncodingDB.win2unicode),
+                 ("pdf", EncodingDB.pdf2unicode)):
+        if d != t[k]:
+            d.clear()
+            d.update(t[k])
 
 
 ENC_NAME = {"std": "StandardEncoding", "mac": "MacRomanEncoding", "win": "WinAnsiEncoding", "pdf": "PDFDocEncoding",
@@ -369,6 +385,9 @@ def compare_simple(rec, pdf, exp):
             if text == tc and bt in exp["hit"] and uses_builtin(f) and f["std"]:
                 out.append(("dev:BuiltinStdIgnored", "code %d of a font whose embedded Type 1 program declares StandardEncoding "
                             "shows %r, expected %r" % (bt, text, ti), {"code": bt, "observed": text, "expected": ti}))
+            elif text == tc and bt in exp["hit"] and uses_builtin(f):
+                out.append(("dev:BuiltinKeepsEarlier", "code %d renamed to an unmappable glyph by a dup/put entry of the embedded "
+                            "program shows %r, expected %r" % (bt, text, ti), {"code": bt, "observed": text, "expected": ti}))
             elif text == tc and bt in exp["hit"]:
                 out.append(("dev:DiffKeepsBase", "code %d named %s in Differences shows %r, expected %r" % (
                     bt, "an unmappable glyph", text, ti), {"code": bt, "observed": text, "expected": ti}))
@@ -410,7 +429,13 @@ def simple_worker(batch):
     res = []
     for rec in recs:
         pdf, exp = realise_simple(rec, herr)
-        res.append((compare_simple(rec, pdf, exp), exp["ti"][rec["off"]:rec["off"] + 3]))
+        findings = compare_simple(rec, pdf, exp)
+        bad = tables_intact()
+        if bad:
+            findings.append(("shared-base-table-modified", "building this font changed EncodingDB's shared %s table(s): every other "
+                             "font relying on them in this process now reports different text" % "/".join(bad), {"tables": bad}))
+            restore_tables()
+        res.append((findings, exp["ti"][rec["off"]:rec["off"] + 3]))
     return res
 
 
@@ -511,6 +536,150 @@ def font_summary(f):
     return "%s%s enc=%s/%s diff=%s tu=%s ent=%s fc=%s widths=%s mw=%s fm=%s" % (
         f["kind"], "+FontFile(StandardEncoding)" if f.get("std") else ("+FontFile" if f["file"] else ""), f["enc"], f["base"], [x["v"] if x["t"] == "int" else x["g"] for x in f["diff"]], f["tu"],
         [(e["c"], e["g"]) for e in f["ent"]], f["fc"], f["widths"], f["mw"], f["fm"])
+
+
+# =============================================================================================== sequences of fonts
+SEQ_GLYPH = {"gA": ("Euro", "\u20ac"), "gB": ("Sigma", "\u03a3")}
+SEQ_BYTES = [124, 125, 126]           # window codes 1..3: defined, and equal, in StandardEncoding and WinAnsiEncoding
+SEQ_SHOW = SEQ_BYTES + [65]
+
+
+def seq_doc(specs):
+    """page i binds F1..Fi (indirect font objects, so that with caching the font object built on page j is re-read on
+    every later page) and shows SEQ_SHOW with each of them, one line per font"""
+    from ..realise import fontpdf as fp
+    from ..realise.pdfwriter import Name, Ref, Revision, Stream, build
+    objs = {1: {"Type": Name("Catalog"), "Pages": Ref(2)}}
+    for j, sp in enumerate(specs):
+        d = {"Type": Name("Font"), "Subtype": Name("Type1"), "BaseFont": Name("VERIFS+Seq%d" % j), "FirstChar": 124,
+             "LastChar": 126, "Widths": [600, 0, 725]}
+        desc = {"Type": Name("FontDescriptor"), "FontName": Name("VERIFS+Seq%d" % j), "Flags": 32,
+                "FontBBox": [0, -200, 1000, 800], "MissingWidth": 250}
+        ents = [(SEQ_BYTES[c - 1], SEQ_GLYPH[g][0]) for (c, g) in sp["ents"]]
+        if sp["k"] == "plain":
+            if sp["base"] == "stdname":
+                d["Encoding"] = Name("StandardEncoding")
+            elif sp["base"] == "win":
+                d["Encoding"] = Name("WinAnsiEncoding")
+        elif sp["k"] == "diff":
+            e = {"Type": Name("Encoding"), "Differences": [x for (b, n) in ents for x in (b, Name(n))]}
+            if sp["base"] == "win":
+                e["BaseEncoding"] = Name("WinAnsiEncoding")
+            d["Encoding"] = e
+        else:
+            objs[40 + j] = fp.fontfile_stream(fp.type1_header(ents, fontname="Seq%d" % j, standard=sp["std"]))
+            desc["FontFile"] = Ref(40 + j)
+        d["FontDescriptor"] = desc
+        objs[20 + j] = d
+    kids = []
+    for i in range(len(specs)):
+        parts = [b"BT"]
+        for j in range(i + 1):
+            parts.append(b"/F%d 10 Tf 1 0 0 1 10 %d Tm" % (j + 1, 700 - 20 * j))
+            parts += [b"<%02x> Tj" % c for c in SEQ_SHOW]
+        parts.append(b"ET")
+        objs[60 + 2 * i] = Stream({}, b" ".join(parts))
+        objs[61 + 2 * i] = {"Type": Name("Page"), "Parent": Ref(2), "MediaBox": [0, 0, 612, 792],
+                            "Resources": {"Font": {"F%d" % (j + 1): Ref(20 + j) for j in range(i + 1)}},
+                            "Contents": Ref(60 + 2 * i)}
+        kids.append(Ref(61 + 2 * i))
+    objs[2] = {"Type": Name("Pages"), "Kids": kids, "Count": len(kids)}
+    pdf, _ = build([Revision(dict(sorted(objs.items())), root=Ref(1))])
+    return pdf
+
+
+def seq_expected(spec, tab):
+    """texts of SEQ_SHOW for one font, from the model's table for it (= its dictionary read in isolation)"""
+    t = base_tables()
+    out = []
+    for c, b in enumerate(SEQ_BYTES):
+        kind, a = tab[c]
+        if kind in ("std", "win"):
+            out.append(t[kind][b])
+        elif kind == "glyph":
+            out.append(SEQ_GLYPH[a][1])
+        else:
+            out.append("(cid:%d)" % b)
+    # frame: code 65 lies outside the modelled codes
+    out.append("A" if spec["k"] != "prog" or spec["std"] else "(cid:65)")
+    return out
+
+
+def seq_worker(batch):
+    from ..realise import fontpdf as fp
+    res = []
+    for n, r in batch:
+        findings = []
+        specs, tabs = r["specs"], r["tabs"]
+        pdf = seq_doc(specs)
+        try:
+            pages = fp.chars_of(pdf, caching=(n % 2 == 0))
+        except Exception as e:  # noqa: BLE001
+            res.append([("exception:%s" % type(e).__name__, "font sequence %s raised %r" % (seq_summary(specs), e), {})])
+            continue
+        for i, chars in enumerate(pages):
+            got = [c[0] for c in chars]
+            want = [x for j in range(i + 1) for x in seq_expected(specs[j], tabs[j])]
+            if got != want:
+                # which font of the page reports something its own dictionary does not prescribe
+                j = next((k // len(SEQ_SHOW) for k in range(min(len(got), len(want))) if got[k] != want[k]), 0)
+                findings.append(("font-sequence:%s-changed-by-%s" % (specs[j]["k"], "/".join(sorted({s["k"] + ("+std" if s["std"] else "")
+                                                                                                      for k2, s in enumerate(specs) if k2 != j}))),
+                                 "fonts %s built in one process (caching=%s): on page %d font %d reports %r, its own dictionary "
+                                 "prescribes %r" % (seq_summary(specs), n % 2 == 0, i + 1, j + 1,
+                                                    got[j * len(SEQ_SHOW):(j + 1) * len(SEQ_SHOW)],
+                                                    want[j * len(SEQ_SHOW):(j + 1) * len(SEQ_SHOW)]), {}))
+                break
+        bad = tables_intact()
+        if bad:
+            findings.append(("shared-base-table-modified", "building the fonts %s changed EncodingDB's shared %s table(s)"
+                             % (seq_summary(specs), "/".join(bad)), {"tables": bad}))
+            restore_tables()
+        res.append(findings)
+    return res
+
+
+def seq_summary(specs):
+    def one(s):
+        if s["k"] == "plain":
+            return "plain(%s)" % s["base"]
+        if s["k"] == "diff":
+            return "Differences(%s,%s)" % (s["base"], s["ents"])
+        return "program(%s%s)" % ("StandardEncoding def + " if s["std"] else "", s["ents"])
+    return "[" + ", ".join(one(s) for s in specs) + "]"
+
+
+def direction_a_seq(ck, ppool):
+    cfg = write_cfg(os.path.join(ck.tmp, "fontseq.cfg"),
+                    constants={"Codes": "<- MCCodes", "Specs": "<- MCSpecs", "MaxFonts": 3, "Dev": "<- NoDev"},
+                    spec="Spec", invariants=["SharedUnchanged", "Isolated"], properties=["Frame"], constraints=["Emit"])
+    emit = os.path.join(ck.tmp, "fontseq.ndjson")
+    res = run_tlc(os.path.join(FONT, "MC_FontSeq.tla"), cfg, emit=emit, coverage=True, workers=2, timeout=900)
+    ck.add_tlc(res, "FontSeq: sequences of <= 3 fonts over 9 kinds of dictionary, shared base tables as state")
+    if not res.ok:
+        report(ck, "model:FontSeq:" + str(res.violated), "TLC: %s violated on FontSeq.tla" % res.violated,
+               {"tlc": res.error_text[:3000]})
+        return
+    require_coverage(res, ["AAlias", "ACopyDiff", "AProgram"])
+    recs = [json.loads(line) for line in open(emit)]
+    os.remove(emit)
+    if len(recs) != res.emitted or not recs:
+        raise MachineryError("FontSeq: emitted %d, read %d" % (res.emitted, len(recs)))
+    items = list(enumerate(recs))
+    chunks = [items[i:i + 30] for i in range(0, len(items), 30)]
+    k = 0
+    for chunk, results in zip(chunks, ppool.map(seq_worker, chunks)):
+        for (n, r), findings in zip(chunk, results):
+            k += 1
+            for key, what, detail in findings:
+                report(ck, key, what, {"kind": "fontseq", "rec": r, "n": n})
+            nontriv = len(r["specs"]) > 1 and any(s["k"] == "prog" for s in r["specs"])
+            ck.case(len(SEQ_SHOW) * len(r["specs"]) * (len(r["specs"]) + 1) // 2,
+                    ("Q", json.dumps(r["specs"], sort_keys=True)) if nontriv else None)
+            if k % 400 == 7 and len(ck.samples) < 8:
+                ck.sample({"font_sequence": seq_summary(r["specs"]), "model_tables": r["tabs"], "findings": [f[0] for f in findings]})
+    ck.replayed += len(recs)
+    ck.extra["font_sequences_replayed"] = len(recs)
 
 
 # =============================================================================================== get_font caching
@@ -663,7 +832,7 @@ def validate_font_traces(ck, traces, dev, label="trace validation"):
         t, k, ph = int(st["t"]), int(st["k"]), st["ph"].strip('"')
         tr = todo[t - 1]
         rejected += 1
-        what = {"start": "malformed record", "diff": "the recorded get_encoding table is not the Differences overlay of the base table",
+        what = {"start": "malformed record, or EncodingDB's shared base tables were changed while the font was built / are not what latin_enc prescribes", "diff": "the recorded get_encoding table is not the Differences overlay of the base table",
                 "codes": "to_unichr/char_width event of code %d breaks the precedence / width rule: %s"
                          % (k, json.dumps(tr["codes"][k]) if k < 256 else "?")}.get(ph, ph)
         report(ck, "trace-rejected:" + ph, "recorded font trace of %s (%s) is not a behaviour of SimpleFontTrace: %s"
@@ -725,7 +894,9 @@ def run(ck):
                "of the four SimpleFont.tla spaces (Differences arrays, base-encoding naming x ToUnicode maps, width windows, "
                "built-in encodings), each realised as a PDF showing all 256 codes (256 evaluations per font); non-trivial = "
                "has Differences, ToUnicode entries, built-in entries, Widths or standard-14 metrics. (iii) every FontCache "
-               "scenario as a two-page document. B: one trace per distinct simple font of the repository samples, 256 codes "
+               "scenario as a two-page document and every FontSeq sequence of <= 3 fonts as one document whose page i shows "
+               "fonts 1..i (each font re-read after every later construction; EncodingDB's shared tables compared with "
+               "latin_enc after every document); non-trivial = more than one font, one of them with an embedded program. B: one trace per distinct simple font of the repository samples, 256 codes "
                "each; non-trivial = has Differences or ToUnicode entries.")
     ck.assumptions = ["contents of glyphlist, latin_enc.ENCODING and fontmetrics are constants read from the package (DESIGN 1.1)",
                       "abstract glyph names / ToUnicode targets are represented by 3-5 concrete members each",
@@ -733,6 +904,7 @@ def run(ck):
                       "standard-14 fonts: the metric is looked up by the reported character; their own Widths are unconstrained",
                       "ToUnicode CMap syntax is C07's subject; here ToUnicode maps are bfchar sections"]
     check_representatives(agl_dev)
+    base_tables(verify=True)
     with ThreadPoolExecutor(5) as tpool, ProcessPoolExecutor(min(16, os.cpu_count() or 4), initializer=quiet) as ppool:
         ja, js = agl_jobs(ck, agl_dev), sf_jobs(ck, font_dev)
         fa = [tpool.submit(run_agl_tlc, j) for j in ja]
@@ -744,6 +916,8 @@ def run(ck):
         ph["agl"] = round(time.time() - t0, 1)
         direction_a_fonts(ck, font_dev, js, fs, ppool)
         ph["fonts"] = round(time.time() - t0, 1)
+        direction_a_seq(ck, ppool)
+        ph["sequences"] = round(time.time() - t0, 1)
         direction_a_cache(ck)
         ph["cache"] = round(time.time() - t0, 1)
         direction_b(ck, font_dev, ppool)
@@ -769,6 +943,11 @@ def replay(path):
         for key, what, _ in fs:
             print(key, what)
         bad = bool(fs)
+    elif kind == "fontseq":
+        fnd = seq_worker([(case.get("n", 0), case["rec"])])[0]
+        for f in fnd:
+            print(f[0], f[1])
+        bad = bool(fnd)
     elif kind == "cache":
         from ..realise import fontpdf as fp
         r = case["rec"]
